@@ -222,7 +222,9 @@ def write_ev(ctx, rules, n_eval, distinct, violations, t0, error=None):
         "analysed_root": ctx.root,
     }
     if level == "proof":
-        cov["obligations"] = n_eval
+        # findings listed as known are not proof obligations: they are
+        # excluded (and printed); the proof is about everything else
+        cov["obligations"] = n_eval - sum(r["known"] for r in rules.values())
         cov["discharged"] = discharged
         cov["excluded_by_known_finding"] = sum(
             r["known"] for r in rules.values())
